@@ -236,12 +236,6 @@ func genC03() error {
 			case isNamed(ft, "/ir", "Align"):
 				step("2", "x."+fn+" = ir.Align(1 << (uint(k) * 5))")
 			case isNamed(ft, "/ir/types", "AddrSpace"):
-				if name == "InstAlloca" {
-					// the address space is part of the result type: uses of the
-					// result would no longer be well typed
-					notVaried = append(notVaried, name+"."+fn+" (changes the result type; covered by the C06 parse harness)")
-					break
-				}
 				step("1", "x."+fn+" = 5")
 			default:
 				if b, ok := ft.Underlying().(*types.Basic); ok && b.Kind() == types.Bool {
